@@ -30,6 +30,8 @@ class Env:
             self._phase[c.decl().name()] = ("cos", ("atom", name))
             self._phase[s.decl().name()] = ("sin", ("atom", name))
         self._lu_done = set()
+        self.abs_sqrt = False
+        self._quot = dict(getattr(ctx, "quot", {}))
         self.cache = {}
 
     # -- variables ---------------------------------------------------------------------
@@ -39,8 +41,16 @@ class Env:
         if name in self._sqrt:
             a = self.eval(self._sqrt[name])
             if a < -1e-12:
-                raise Reject(f"sqrt of negative ({a})")
+                if not self.abs_sqrt:
+                    raise Reject(f"sqrt of negative ({a})")
+                a = -a
             v = math.sqrt(max(a, 0.0))
+        elif name in self._quot:
+            n, d = self._quot[name]
+            dv = self.eval(d)
+            if dv == 0:
+                raise Reject("quotient with zero denominator")
+            v = self.eval(n) / dv
         elif name in self._phase:
             fn, key = self._phase[name]
             ang = self._angle(key)
@@ -219,3 +229,34 @@ def parse_model_value(v):
         return float(v)
     except Exception:
         return None
+
+
+class HashEnv(Env):
+    """Environment that assigns every free variable a pseudo-random value derived from its
+    name (used for fingerprinting terms when merging auxiliary variables)."""
+
+    def __init__(self, ctx, seed):
+        super().__init__(ctx, {}, lu_log=None)
+        self.seed = seed
+        self.abs_sqrt = True
+
+    def _hashval(self, name, lo=0.3, hi=1.7):
+        h = hashlib.sha256(f"{self.seed}|{name}".encode()).digest()
+        return lo + (hi - lo) * (int.from_bytes(h[:8], "little") / 2**64)
+
+    def var(self, name):
+        if name in self.values:
+            return self.values[name]
+        try:
+            if name.startswith("lu") and "_" in name:
+                raise KeyError(name)
+            return super().var(name)
+        except KeyError:
+            v = self._hashval(name)
+            self.values[name] = v
+            return v
+
+    def _angle(self, key):
+        if key[0] == "atom":
+            return self._hashval("angle:" + key[1], -3.0, 3.0)
+        return super()._angle(key)
